@@ -13,3 +13,5 @@ def run(ctx):
         dwvw.run(ctx, "C01", 120 if q else 1200)
         from .. import ieee
         ieee.run_c01_replace(ctx)      # float/double files through the portable IEEE serialisers (SFC_TEST_IEEE_FLOAT_REPLACE)
+        from .. import alac           # CAF/ALAC: packet staging, pakt / kuki chunks, read / seek around the codec core (lean/SfModel/AlacFile.lean)
+        alac.run(ctx, "C01", 96 if q else 960)
